@@ -1,12 +1,652 @@
-//! C12 (in-process part): enumerate every fault position of an operation on a prepared state.
+//! C12 (in-process part): for sampled (prepared state, operation) pairs, enumerate EVERY position
+//! k of the file-system calls the operation makes × errno ∈ {EIO, EACCES, ENOSPC}; the call must
+//! return an error or leave exactly the directory the fault-free call produces.
 
-pub fn run_check(_tier: &str) -> i32 {
-    eprintln!("HARNESS-ERROR: C12 not built yet");
-    2
+use super::exec::{FAULT_MODE, LoggedCb, Observed, World};
+use super::generate::{self, Class};
+use super::model::{ExpResult, Model};
+use super::ops::{History, Op};
+use crate::evidence::Evidence;
+use crate::known::Known;
+use crate::pool::{self, PoolError};
+use crate::rng::{run_seed, splitmix64};
+use crate::shimapi::{Fault, MODE_COUNT, MODE_ERROR, Shim, Stats};
+use crate::snap::{self, Snap};
+use serde::{Deserialize, Serialize};
+use serde_json::json;
+use std::cell::RefCell;
+use std::collections::{BTreeMap, BTreeSet};
+use std::os::unix::ffi::OsStrExt;
+use std::path::{Path, PathBuf};
+use std::sync::atomic::Ordering;
+use std::time::Instant;
+
+pub const ERRNOS: [(i32, &str); 3] = [(libc::EIO, "EIO"), (libc::EACCES, "EACCES"), (libc::ENOSPC, "ENOSPC")];
+
+#[derive(Clone, Debug, Serialize, Deserialize)]
+pub struct FaultReplay {
+    pub engine: String,
+    pub property: String,
+    pub seed: u64,
+    pub pair_index: u64,
+    pub history: History,
+    /// index of the faulted operation in history.ops (all earlier ops are the fault-free prefix)
+    pub target: usize,
+    pub k: i64,
+    pub errno: i32,
+    pub errno_name: String,
+    pub faulted_call: String,
+    pub signature: String,
+    pub detail: Vec<String>,
+    pub shim_ring: String,
+    pub minimised_from_steps: usize,
 }
-pub fn worker(_args: &[String]) -> i32 {
-    2
+
+#[derive(Clone, Debug, Default, Serialize, Deserialize)]
+pub struct FaultSummary {
+    pub pairs: u64,
+    pub pairs_skipped_no_success: u64,
+    pub pairs_skipped_disabled: u64,
+    pub executions: u64,
+    pub fired: u64,
+    pub outcome_err: u64,
+    pub outcome_ok_same_state: u64,
+    pub fired_by_call: BTreeMap<String, u64>,
+    pub fired_by_errno: BTreeMap<String, u64>,
+    pub cells: BTreeSet<String>,
+    pub targets_by_kind: BTreeMap<String, u64>,
+    pub calls_per_op_max: i64,
+    pub calls_total: i64,
+    pub violations: Vec<FaultReplay>,
+    pub harness_errors: Vec<String>,
+    pub samples: Vec<serde_json::Value>,
 }
-pub fn replay_worker(_args: &[String]) -> i32 {
-    2
+
+impl FaultSummary {
+    fn merge(&mut self, o: FaultSummary) {
+        self.pairs += o.pairs;
+        self.pairs_skipped_no_success += o.pairs_skipped_no_success;
+        self.pairs_skipped_disabled += o.pairs_skipped_disabled;
+        self.executions += o.executions;
+        self.fired += o.fired;
+        self.outcome_err += o.outcome_err;
+        self.outcome_ok_same_state += o.outcome_ok_same_state;
+        for (k, v) in o.fired_by_call {
+            *self.fired_by_call.entry(k).or_insert(0) += v;
+        }
+        for (k, v) in o.fired_by_errno {
+            *self.fired_by_errno.entry(k).or_insert(0) += v;
+        }
+        self.cells.extend(o.cells);
+        for (k, v) in o.targets_by_kind {
+            *self.targets_by_kind.entry(k).or_insert(0) += v;
+        }
+        self.calls_per_op_max = self.calls_per_op_max.max(o.calls_per_op_max);
+        self.calls_total += o.calls_total;
+        self.violations.extend(o.violations);
+        self.harness_errors.extend(o.harness_errors);
+        if self.samples.len() < 3 {
+            self.samples.extend(o.samples);
+            self.samples.truncate(3);
+        }
+    }
+}
+
+struct SendPtr<T>(*mut T);
+// SAFETY: the pointee is only touched by the spawned thread while the spawning thread is
+// blocked in join(); this is a hand-rolled scoped thread whose only purpose is to give the
+// code under test a fresh thread (fresh, seed-determined hash keys).
+unsafe impl<T> Send for SendPtr<T> {}
+
+/// Execute `op` on a fresh thread whose hash keys derive from `seed`, with the shim armed.
+fn exec_on_fresh_thread(
+    world: &mut World,
+    model_after: &Model,
+    op: &Op,
+    shim: &Shim,
+    seed: u64,
+    fault: &Fault,
+    rdseed: u64,
+) -> Result<(Observed, Stats), String> {
+    shim.set_random(seed, true);
+    let wp = SendPtr(std::ptr::from_mut(world));
+    let mp = SendPtr(std::ptr::from_ref(model_after).cast_mut());
+    let op2 = op.clone();
+    let shim2 = *shim;
+    let fault2 = fault.clone();
+    let root = world.root.clone();
+    let handle = std::thread::Builder::new()
+        .stack_size(8 << 20)
+        .spawn(move || {
+            let wp = wp;
+            let mp = mp;
+            // SAFETY: see SendPtr.
+            let world: &mut World = unsafe { &mut *wp.0 };
+            // SAFETY: see SendPtr; only read.
+            let model: &Model = unsafe { &*mp.0 };
+            let log: RefCell<Vec<LoggedCb>> = RefCell::new(Vec::new());
+            shim2.begin(&root, &fault2, rdseed, 0, 0);
+            let obs = world.exec(&op2, model, &log);
+            let st = shim2.end();
+            (obs, st)
+        })
+        .map_err(|e| e.to_string())?;
+    let out = handle.join();
+    shim.set_random(0, false);
+    match out {
+        Ok(v) => Ok(v),
+        Err(_) => {
+            let _ = shim.end();
+            Err("the code under test panicked under an injected fault".into())
+        }
+    }
+}
+
+struct Prepared {
+    world: World,
+    model_before: Model,
+    model_after: Model,
+    s0: Snap,
+    target: Op,
+}
+
+/// Run the fault-free prefix and stop in front of the target operation.
+fn prepare(history: &History, target: usize, root: &Path, shim: &Shim, seed: u64) -> Result<Option<Prepared>, String> {
+    let root_abs = root.as_os_str().as_bytes().to_vec();
+    let mut model = Model::new(&root_abs, history);
+    let mut world = World::create(root, &model.snap, &history.layers).map_err(|e| e.to_string())?;
+    for (i, op) in history.ops.iter().enumerate().take(target) {
+        if !model.enabled(op) {
+            continue;
+        }
+        let exp = model.apply(op);
+        let rdseed = splitmix64(seed ^ (i as u64) << 8) | 1;
+        let (_obs, _st) = exec_on_fresh_thread(&mut world, &model, op, shim, seed ^ i as u64, &Fault::none(), rdseed)?;
+        let actual = world.snapshot().map_err(|e| e.to_string())?;
+        // the prefix is not judged here (C01/C02/C03 do that); keep the model exactly in step
+        let _ = exp;
+        model.snap = actual;
+    }
+    let op = &history.ops[target];
+    if !model.enabled(op) {
+        return Ok(None);
+    }
+    let s0 = world.snapshot().map_err(|e| e.to_string())?;
+    let model_before = model.clone();
+    let mut model_after = model;
+    let exp = model_after.apply(op);
+    if matches!(exp.result, ExpResult::NoCall) {
+        return Ok(None);
+    }
+    Ok(Some(Prepared {
+        world,
+        model_before,
+        model_after,
+        s0,
+        target: op.clone(),
+    }))
+}
+
+fn restore_state(p: &mut Prepared) -> Result<(), String> {
+    snap::wipe(&p.world.root).map_err(|e| e.to_string())?;
+    snap::materialise(&p.world.root, &p.s0).map_err(|e| e.to_string())
+}
+
+pub struct PairOutcome {
+    pub n_calls: i64,
+    pub violation: Option<(i64, i32, String, Vec<String>, String)>, // k, errno, call, detail, ring
+    pub executions: u64,
+    pub fired: Vec<(String, i32, bool)>, // call kind, errno, outcome_err
+    pub skipped_no_success: bool,
+    pub pre_class: String,
+}
+
+/// Enumerate every fault position of the target op. `only` restricts to one (k, errno).
+fn enumerate(p: &mut Prepared, shim: &Shim, seed: u64, only: Option<(i64, i32)>) -> Result<PairOutcome, String> {
+    let rdseed = splitmix64(seed ^ 0xfa17) | 1;
+    let hseed = seed ^ 0x7a26e7;
+    let count_fault = Fault {
+        at: 0,
+        errno: libc::EIO,
+        mode: MODE_COUNT,
+    };
+    let target = p.target.clone();
+    let model_after = p.model_after.clone();
+    let pre_class = target
+        .layer()
+        .map(|l| p.model_before.pre_class(l, super::ops::MetaKind::Generic))
+        .unwrap_or_default();
+    let (obs_ok, st_ok) = exec_on_fresh_thread(&mut p.world, &model_after, &target, shim, hseed, &count_fault, rdseed)?;
+    let mut out = PairOutcome {
+        n_calls: st_ok.matched,
+        violation: None,
+        executions: 1,
+        fired: Vec::new(),
+        skipped_no_success: false,
+        pre_class,
+    };
+    if !obs_ok.is_ok() {
+        out.skipped_no_success = true;
+        return Ok(out);
+    }
+    let s_ok = p.world.snapshot().map_err(|e| e.to_string())?;
+    let n = st_ok.matched;
+    for k in 1..=n {
+        for (errno, _name) in ERRNOS {
+            if let Some((ok, oe)) = only {
+                if ok != k || oe != errno {
+                    continue;
+                }
+            }
+            restore_state(p)?;
+            // layer references obtained before the target stay valid (they are names)
+            FAULT_MODE.store(true, Ordering::SeqCst);
+            let fault = Fault {
+                at: k,
+                errno,
+                mode: MODE_ERROR,
+            };
+            let r = exec_on_fresh_thread(&mut p.world, &model_after, &target, shim, hseed, &fault, rdseed);
+            FAULT_MODE.store(false, Ordering::SeqCst);
+            let (obs, st) = r?;
+            out.executions += 1;
+            if !st.fired {
+                return Err(format!(
+                    "fault {k}/{n} did not fire on re-execution of {} (the simulator lost determinism)",
+                    target.kind_name()
+                ));
+            }
+            let is_err = !obs.is_ok();
+            out.fired.push((st.fired_call.clone(), errno, is_err));
+            if !is_err {
+                let s_k = p.world.snapshot().map_err(|e| e.to_string())?;
+                if s_k != s_ok {
+                    let lines = snap::diff(&s_ok, &s_k, &|_, _, _| None, &[]);
+                    let mut detail = vec![format!(
+                        "{} returned success although its file-system call #{k} of {n} ({}) failed with errno {errno}; directory differs from the fault-free result:",
+                        target.kind_name(),
+                        st.fired_call
+                    )];
+                    detail.extend(lines.into_iter().take(8));
+                    out.violation = Some((k, errno, st.fired_call.clone(), detail, shim.ring()));
+                    return Ok(out);
+                }
+            }
+        }
+    }
+    Ok(out)
+}
+
+fn pick_target(history: &History) -> Option<usize> {
+    // the last operation that calls into libcnb
+    history.ops.iter().rposition(|op| {
+        matches!(
+            op,
+            Op::Cached { .. }
+                | Op::Uncached { .. }
+                | Op::Handle { .. }
+                | Op::WriteMetadata { .. }
+                | Op::WriteEnv { .. }
+                | Op::ReadEnv { .. }
+                | Op::EnvCycle { .. }
+                | Op::WriteSboms { .. }
+                | Op::WriteExecD { .. }
+        )
+    })
+}
+
+fn signature(target: &Op, call: &str) -> String {
+    format!("I-fault:{}:{}", target.kind_name(), call)
+}
+
+pub fn worker_pairs(global_seed: u64, from: u64, to: u64, scratch: &Path, shim: &Shim, max_steps: usize) -> FaultSummary {
+    let mut sum = FaultSummary::default();
+    for j in from..to {
+        let seed = run_seed(global_seed, "e1-fault", j);
+        let (mut history, _sw) = generate::gen_history(seed, Class::Mixed, max_steps);
+        let Some(target) = pick_target(&history) else {
+            sum.pairs_skipped_disabled += 1;
+            continue;
+        };
+        history.ops.truncate(target + 1);
+        let root = scratch.join("w");
+        let mut prepared = match prepare(&history, target, &root, shim, seed) {
+            Ok(Some(p)) => p,
+            Ok(None) => {
+                sum.pairs_skipped_disabled += 1;
+                continue;
+            }
+            Err(e) => {
+                sum.harness_errors.push(format!("pair {j}: {e}"));
+                continue;
+            }
+        };
+        match enumerate(&mut prepared, shim, seed, None) {
+            Err(e) => {
+                if e.contains("panicked") {
+                    sum.violations.push(FaultReplay {
+                        engine: "e1-fault".into(),
+                        property: "C12".into(),
+                        seed,
+                        pair_index: j,
+                        minimised_from_steps: history.ops.len(),
+                        history: history.clone(),
+                        target,
+                        k: 0,
+                        errno: 0,
+                        errno_name: String::new(),
+                        faulted_call: String::new(),
+                        signature: "I-fault:panic".into(),
+                        detail: vec![e],
+                        shim_ring: shim.ring(),
+                    });
+                } else {
+                    sum.harness_errors.push(format!("pair {j}: {e}"));
+                }
+            }
+            Ok(o) => {
+                sum.pairs += 1;
+                sum.executions += o.executions;
+                *sum.targets_by_kind.entry(history.ops[target].kind_name().to_string()).or_insert(0) += 1;
+                if o.skipped_no_success {
+                    sum.pairs_skipped_no_success += 1;
+                    continue;
+                }
+                sum.calls_per_op_max = sum.calls_per_op_max.max(o.n_calls);
+                sum.calls_total += o.n_calls;
+                for (call, errno, is_err) in &o.fired {
+                    sum.fired += 1;
+                    *sum.fired_by_call.entry(call.clone()).or_insert(0) += 1;
+                    let en = ERRNOS.iter().find(|(e, _)| e == errno).map_or("?", |(_, n)| n);
+                    *sum.fired_by_errno.entry(en.to_string()).or_insert(0) += 1;
+                    if *is_err {
+                        sum.outcome_err += 1;
+                    } else {
+                        sum.outcome_ok_same_state += 1;
+                    }
+                    let shape: String = o.pre_class.split('/').take(2).collect::<Vec<_>>().join("/");
+                    sum.cells
+                        .insert(format!("{}|{}|{}|{}", history.ops[target].kind_name(), shape, call, en));
+                }
+                if sum.samples.len() < 2 && o.n_calls > 3 {
+                    sum.samples.push(json!({
+                        "pair_index": j, "seed": seed,
+                        "prefix": history.ops[..target].iter().map(super::brief).collect::<Vec<_>>(),
+                        "target": super::brief(&history.ops[target]),
+                        "fs_calls_of_target": o.n_calls,
+                        "faulted_executions": o.executions - 1,
+                        "fired": o.fired.iter().take(12).map(|(c, e, err)| format!("{c}/{e}->{}", if *err {"Err"} else {"Ok,same state"})).collect::<Vec<_>>(),
+                    }));
+                }
+                if let Some((k, errno, call, detail, ring)) = o.violation {
+                    if sum.violations.len() < 3 {
+                        sum.violations.push(FaultReplay {
+                            engine: "e1-fault".into(),
+                            property: "C12".into(),
+                            seed,
+                            pair_index: j,
+                            minimised_from_steps: history.ops.len(),
+                            signature: signature(&history.ops[target], &call),
+                            history: history.clone(),
+                            target,
+                            k,
+                            errno,
+                            errno_name: ERRNOS.iter().find(|(e, _)| *e == errno).map_or("?", |(_, n)| n).to_string(),
+                            faulted_call: call,
+                            detail,
+                            shim_ring: ring,
+                        });
+                    }
+                }
+            }
+        }
+        let _ = snap::wipe(&root);
+    }
+    sum
+}
+
+/// Drop prefix steps while some fault position still yields the same violation shape.
+fn minimise(rep: &FaultReplay, scratch: &Path, shim: &Shim) -> FaultReplay {
+    let mut best = rep.clone();
+    let root = scratch.join("min");
+    let mut i = 0;
+    while i < best.target {
+        let mut cand = best.clone();
+        cand.history.ops.remove(i);
+        cand.target -= 1;
+        let found = (|| -> Option<(i64, i32, String, Vec<String>, String)> {
+            let mut p = prepare(&cand.history, cand.target, &root, shim, cand.seed).ok()??;
+            let o = enumerate(&mut p, shim, cand.seed, None).ok()?;
+            o.violation
+        })();
+        match found {
+            Some((k, errno, call, detail, ring)) if signature(&cand.history.ops[cand.target], &call) == rep.signature => {
+                cand.k = k;
+                cand.errno = errno;
+                cand.errno_name = ERRNOS.iter().find(|(e, _)| *e == errno).map_or("?", |(_, n)| n).to_string();
+                cand.faulted_call = call;
+                cand.detail = detail;
+                cand.shim_ring = ring;
+                best = cand;
+            }
+            _ => i += 1,
+        }
+    }
+    let _ = snap::wipe(&root);
+    best
+}
+
+fn replay_once(rep: &FaultReplay, scratch: &Path, shim: &Shim) -> serde_json::Value {
+    let root = scratch.join("replay");
+    let res = (|| -> Result<Option<(i64, i32, String, Vec<String>, String)>, String> {
+        let Some(mut p) = prepare(&rep.history, rep.target, &root, shim, rep.seed)? else {
+            return Ok(None);
+        };
+        let o = enumerate(&mut p, shim, rep.seed, Some((rep.k, rep.errno)))?;
+        Ok(o.violation)
+    })();
+    let _ = snap::wipe(&root);
+    match res {
+        Ok(Some((k, errno, call, detail, _))) => json!({
+            "reproduced": k == rep.k && errno == rep.errno && call == rep.faulted_call,
+            "k": k, "errno": errno, "faulted_call": call, "detail": detail,
+        }),
+        Ok(None) => json!({"reproduced": false}),
+        Err(e) => json!({"reproduced": e.contains("panicked") && rep.signature == "I-fault:panic", "error": e}),
+    }
+}
+
+fn harness_fail(msg: &str) -> ! {
+    eprintln!("HARNESS-ERROR: {msg}");
+    std::process::exit(2);
+}
+
+fn arg_after(args: &[String], flag: &str) -> Option<String> {
+    args.iter().position(|a| a == flag).and_then(|i| args.get(i + 1).cloned())
+}
+
+fn scratch(id: &str) -> PathBuf {
+    let d = crate::scratch_root().join(format!("f{id}"));
+    std::fs::create_dir_all(&d).unwrap_or_else(|e| harness_fail(&format!("scratch: {e}")));
+    d
+}
+
+pub fn worker(args: &[String]) -> i32 {
+    let shim = Shim::load().unwrap_or_else(|| harness_fail("shim not loaded"));
+    if let Some(file) = arg_after(args, "--minimise") {
+        let text = std::fs::read_to_string(&file).unwrap_or_else(|e| harness_fail(&e.to_string()));
+        let rep: FaultReplay = serde_json::from_str(&text).unwrap_or_else(|e| harness_fail(&e.to_string()));
+        let s = scratch("min");
+        let min = minimise(&rep, &s, &shim);
+        let _ = snap::wipe(&s);
+        let _ = std::fs::remove_dir(&s);
+        println!("RESULT {}", serde_json::to_string(&min).unwrap_or_default());
+        return 0;
+    }
+    let from: u64 = arg_after(args, "--from").and_then(|s| s.parse().ok()).unwrap_or(0);
+    let to: u64 = arg_after(args, "--to").and_then(|s| s.parse().ok()).unwrap_or(0);
+    let id = arg_after(args, "--id").unwrap_or_else(|| "0".into());
+    let max_steps: usize = arg_after(args, "--max-steps").and_then(|s| s.parse().ok()).unwrap_or(12);
+    let s = scratch(&id);
+    let sum = worker_pairs(crate::global_seed(), from, to, &s, &shim, max_steps);
+    let _ = snap::wipe(&s);
+    let _ = std::fs::remove_dir(&s);
+    println!("RESULT {}", serde_json::to_string(&sum).unwrap_or_default());
+    0
+}
+
+pub fn replay_worker(args: &[String]) -> i32 {
+    let shim = Shim::load().unwrap_or_else(|| harness_fail("shim not loaded"));
+    let file = args.get(1).cloned().unwrap_or_default();
+    let text = std::fs::read_to_string(&file).unwrap_or_else(|e| harness_fail(&e.to_string()));
+    let rep: FaultReplay = serde_json::from_str(&text).unwrap_or_else(|e| harness_fail(&e.to_string()));
+    let s = scratch("replay");
+    let out = replay_once(&rep, &s, &shim);
+    let _ = snap::wipe(&s);
+    let _ = std::fs::remove_dir(&s);
+    println!("RESULT {}", serde_json::to_string(&out).unwrap_or_default());
+    0
+}
+
+/// In-process half of the C12 check; returns (summary, violations reported, known hits).
+pub fn run_inprocess(tier: &str) -> (FaultSummary, Vec<(FaultReplay, PathBuf)>, Vec<String>) {
+    let pairs: u64 = std::env::var("VERIF_RUNS")
+        .ok()
+        .and_then(|s| s.parse().ok())
+        .unwrap_or(if tier == "thorough" { 60_000 } else { 1_600 });
+    let nworkers = pool::workers();
+    let mut argvs = Vec::new();
+    for (i, (from, to)) in pool::ranges(pairs, nworkers).into_iter().enumerate() {
+        argvs.push(
+            [
+                "worker", "e1-fault", "--from", &from.to_string(), "--to", &to.to_string(), "--id", &i.to_string(),
+                "--max-steps", if tier == "thorough" { "20" } else { "12" },
+            ]
+            .iter()
+            .map(|s| (*s).to_string())
+            .collect(),
+        );
+    }
+    let results: Vec<FaultSummary> = match pool::run_workers(argvs, true) {
+        Ok(r) => r,
+        Err(PoolError::Harness(e)) => harness_fail(&e),
+    };
+    let mut sum = FaultSummary::default();
+    for r in results {
+        sum.merge(r);
+    }
+    if !sum.harness_errors.is_empty() {
+        for e in sum.harness_errors.iter().take(5) {
+            eprintln!("HARNESS-ERROR: {e}");
+        }
+        std::process::exit(2);
+    }
+    let known = Known::load();
+    let mut reported = Vec::new();
+    let mut known_hits = Vec::new();
+    let mut seen: Vec<String> = Vec::new();
+    sum.violations.sort_by_key(|v| v.pair_index);
+    for v in &sum.violations {
+        if seen.contains(&v.signature) || seen.len() >= 3 {
+            continue;
+        }
+        seen.push(v.signature.clone());
+        // minimise in a worker process
+        let dir = crate::scratch_root();
+        let _ = std::fs::create_dir_all(&dir);
+        let inp = dir.join(format!("fmin-{}.json", v.pair_index));
+        let _ = std::fs::write(&inp, serde_json::to_string(v).unwrap_or_default());
+        let argv = vec![
+            "worker".to_string(),
+            "e1-fault".to_string(),
+            "--minimise".to_string(),
+            inp.display().to_string(),
+        ];
+        let min: FaultReplay = match pool::run_workers::<FaultReplay>(vec![argv], true) {
+            Ok(mut r) if !r.is_empty() => r.remove(0),
+            _ => v.clone(),
+        };
+        let _ = std::fs::remove_file(&inp);
+        if let Some(f) = known.matches("C12", &min.signature) {
+            known_hits.push(format!("KNOWN-FINDING: property=C12 {}", f.description));
+            continue;
+        }
+        let rdir = pool::out_root().join("replays");
+        let _ = std::fs::create_dir_all(&rdir);
+        let text = serde_json::to_string_pretty(&min).unwrap_or_default();
+        let path = rdir.join(format!("C12-{:08x}.json", crate::rng::hash_str(&text) & 0xffff_ffff));
+        if let Err(e) = std::fs::write(&path, text + "\n") {
+            harness_fail(&format!("cannot write replay: {e}"));
+        }
+        reported.push((min, path));
+    }
+    (sum, reported, known_hits)
+}
+
+pub fn run_check(tier: &str) -> i32 {
+    let seed = crate::global_seed();
+    println!("VERIF_SEED={seed} property=C12 tier={tier} engines=E1(in-process)+E2(phase outputs)");
+    let started = Instant::now();
+    let (sum, reported, known_hits) = run_inprocess(tier);
+    for l in &known_hits {
+        println!("{l}");
+    }
+    for (min, path) in &reported {
+        println!(
+            "violation: signature={} k={} errno={} ({} -> {} ops)",
+            min.signature,
+            min.k,
+            min.errno_name,
+            min.minimised_from_steps,
+            min.history.ops.len()
+        );
+        for d in &min.detail {
+            println!("    {d}");
+        }
+        println!("VIOLATION property=C12 replay={}", path.display());
+    }
+    // E2 half (phase output writers) is added by the runtime engine when present
+    let e2 = crate::e2::faults::run_phase_faults(tier);
+    for l in &e2.lines {
+        println!("{l}");
+    }
+    let wall = started.elapsed().as_secs_f64();
+    let mut ev = Evidence::new("C12", tier, seed, "fault_enumeration");
+    let mut cells = sum.cells.clone();
+    cells.extend(e2.cells.iter().cloned());
+    ev.cov("evaluations", json!(sum.executions + e2.executions));
+    ev.cov("distinct_nontrivial", json!(cells.len()));
+    ev.cov("rule", json!("for each sampled (prepared state, operation) pair the fault-free execution is counted under the shim (N matching libc calls beneath the world root), then EVERY k in 1..N x errno in {EIO, EACCES, ENOSPC} is executed from the restored state; distinct non-trivial = distinct (operation kind, pre-state shape, faulted libc call, errno) cells in which the fault actually fired. Phase outputs: every fault position of the build/detect output writers in a real buildpack process."));
+    ev.cov("samples", json!(sum.samples.iter().cloned().chain(e2.samples.iter().cloned()).collect::<Vec<_>>()));
+    ev.cov("exhaustive_per_pair", json!(true));
+    ev.cov("pairs", json!(sum.pairs));
+    ev.cov("pairs_skipped_fault_free_call_fails", json!(sum.pairs_skipped_no_success));
+    ev.cov("pairs_skipped_target_disabled", json!(sum.pairs_skipped_disabled));
+    ev.cov("targets_by_operation_kind", json!(sum.targets_by_kind));
+    ev.cov("faults_fired", json!({"total": sum.fired + e2.fired, "by_libc_call": sum.fired_by_call, "by_errno": sum.fired_by_errno, "phase_outputs_by_call": e2.fired_by_call}));
+    ev.cov("outcomes", json!({"returned_error": sum.outcome_err, "returned_ok_with_identical_directory": sum.outcome_ok_same_state, "phase_exit_nonzero": e2.outcome_err, "phase_exit_zero_identical_outputs": e2.outcome_ok_same}));
+    ev.cov("fs_calls_per_operation_max", json!(sum.calls_per_op_max));
+    ev.cov("fs_calls_counted_total", json!(sum.calls_total));
+    ev.cov("phase_scenarios", json!(e2.scenarios));
+    ev.cov("runs_per_hour", json!(((sum.executions + e2.executions) as f64 / wall * 3600.0) as u64));
+    ev.cov("simulated_time", json!("no clock involved; one logical step per intercepted libc call"));
+    ev.cov("components", json!({"real": crate::evidence::REAL_COMPONENTS, "stub": "lifecycle restorer, scripted buildpack callbacks, stub lifecycle invoking the phase executable"}));
+    ev.cov("cells", json!(cells.iter().take(300).collect::<Vec<_>>()));
+    ev.cov("known_findings_seen", json!(known_hits));
+    ev.assumptions = vec![
+        "stat-family calls, close and fsync are not faulted (not in the statement's list; exists() maps failure to absent by design)".into(),
+        "ENOENT is never injected (deliberate best-effort deletes excluded by the statement)".into(),
+        "pairs whose fault-free execution does not succeed are skipped (no successful reference)".into(),
+        "the (state, operation) pairs are sampled; for each pair the enumeration over k x errno is complete".into(),
+    ];
+    ev.wall_s = wall;
+    ev.violations = (reported.len() + e2.violations) as i64;
+    if let Err(e) = ev.write() {
+        harness_fail(&format!("cannot write evidence: {e}"));
+    }
+    println!(
+        "C12: {} pairs, {} faulted executions ({} fired; {} Err, {} Ok+same state), {} cells; phase outputs: {} scenarios, {} executions; {:.1}s",
+        sum.pairs, sum.executions, sum.fired, sum.outcome_err, sum.outcome_ok_same_state, cells.len(), e2.scenarios, e2.executions, wall
+    );
+    i32::from(!reported.is_empty() || e2.violations > 0)
 }
